@@ -1,7 +1,61 @@
 #!/bin/bash
-# thorough tier: whole-program load (dependencies from source), same rules, plus the seeded-change self-test.
+# thorough tier:
+#  1. the property's rules on the whole program (packages.LoadAllSyntax: dependencies type-checked and built to SSA
+#     from source, call graph over everything) — this decides the property and sets the exit code;
+#  2. a self-test of the rules that decide it: every stored seeded change that this property's check is recorded to
+#     catch (/verif/seeded/matrix.json) is applied to a scratch copy of the CURRENT working tree (under /tmp, removed
+#     afterwards) and the rules are run on the copy; the outcome (fired / missed / patch no longer applies) is recorded
+#     in the evidence file under coverage.selftest. The self-test never changes the verdict on /repo: it documents that
+#     the rules still discriminate on today's code. (/verif/seed_matrix.sh is the failing form used during development.)
 set -u
 PROP="$1"; REPO="${2:-/repo}"
 HERE="$(cd "$(dirname "$0")" && pwd)"
 export GOFLAGS=-mod=mod GOPROXY=off GOSUMDB=off GOTOOLCHAIN=local GOWORK=off
-exec "$HERE/bin/mqttverif" -repo "$REPO" -prop "$PROP" -tier thorough -known "$HERE/known_findings.json" -evidence "$HERE/evidence/$PROP.json"
+EV="$HERE/evidence/$PROP.json"
+"$HERE/bin/mqttverif" -repo "$REPO" -prop "$PROP" -tier thorough -known "$HERE/known_findings.json" -evidence "$EV"
+RC=$?
+[ "${VERIF_NO_SELFTEST:-0}" = 1 ] && exit $RC
+[ -f "$HERE/seeded/matrix.json" ] || exit $RC
+SEEDS=$(python3 - "$PROP" "$HERE/seeded/matrix.json" <<'PY'
+import json,sys
+prop,path=sys.argv[1:3]
+for r in json.load(open(path)):
+    if prop in r.get("caught_by",[]): print(r["seed"])
+PY
+)
+[ -z "$SEEDS" ] && exit $RC
+TMP=$(mktemp -d /tmp/verif_selftest_XXXXXX)
+trap 'rm -rf "$TMP"' EXIT
+RES="$TMP/results.txt"; : > "$RES"
+for s in $SEEDS; do
+  rm -rf "$TMP/copy"; mkdir -p "$TMP/copy"
+  rsync -a --exclude .git "$REPO"/ "$TMP/copy"/
+  if ! ( cd "$TMP/copy" && git apply --whitespace=nowarn "$HERE/seeded/$s/patch.diff" ) 2>/dev/null; then
+    echo "$s skipped-patch-does-not-apply" >> "$RES"; continue
+  fi
+  "$HERE/bin/mqttverif" -repo "$TMP/copy" -prop "$PROP" -tier quick -known "$HERE/known_findings.json" -evidence "$TMP/ev.json" > "$TMP/out.txt" 2>&1
+  rc=$?
+  if [ $rc -eq 1 ] && grep -q "^VIOLATION property=$PROP" "$TMP/out.txt"; then
+    rule=$(grep -A1 '^VIOLATION' "$TMP/out.txt" | grep 'rule=' | head -1 | sed -E 's/^ +rule=([^ ]+ [^ ]*) .*/\1/')
+    echo "$s fired $rule" >> "$RES"
+  elif [ $rc -eq 2 ]; then
+    echo "$s machinery-failure" >> "$RES"
+  else
+    echo "$s missed" >> "$RES"
+  fi
+done
+python3 - "$EV" "$RES" <<'PY'
+import json,sys
+ev,res=sys.argv[1:3]
+e=json.load(open(ev))
+rows=[]
+for l in open(res):
+    p=l.split(None,2)
+    rows.append({"seed":p[0],"outcome":p[1],"rule":p[2].strip() if len(p)>2 else ""})
+e["coverage"]["selftest"]={"what":"stored seeded changes applied to a scratch copy of the current tree; the property's rules must report each",
+  "seeds":rows,"fired":sum(1 for r in rows if r["outcome"]=="fired"),"missed":sum(1 for r in rows if r["outcome"]=="missed"),
+  "skipped":sum(1 for r in rows if r["outcome"].startswith("skipped"))}
+json.dump(e,open(ev,"w"),indent=1)
+print("selftest: "+", ".join(f'{r["seed"]}={r["outcome"]}' for r in rows))
+PY
+exit $RC
